@@ -19,6 +19,30 @@ META = {
         "level_text": "Generated search: tens of thousands of random DAG x flag x script x schedule cases per run, each judged by an ordering invariant over the observed start/finish trace; holds on everything generated, proves nothing beyond it.",
         "level_note": SIM_NOTE,
     },
+    "C02": {
+        "engine": "simexec", "design_ref": "DESIGN.md section 3 C02",
+        "technique": "property-based testing (rapid) against a reference model of the DAG semantics (local-consistency oracle over final states and execution counts)",
+        "level_text": "Generated search over DAG x continueOn x precondition x outcome script x completion schedule; every final state vector is compared with what the reference semantics allows. Holds on everything generated.",
+        "level_note": SIM_NOTE,
+    },
+    "C03": {
+        "engine": "simexec", "design_ref": "DESIGN.md section 3 C03",
+        "technique": "property-based testing (rapid): execution-count oracle over the scripted executor's trace, retry scripts below/at/above the limit, dry-run cases",
+        "level_text": "Generated search; the trace gives the exact number and overlap of executions per step, compared with min(k,limit)+1 and the recorded retry count.",
+        "level_note": SIM_NOTE,
+    },
+    "C04": {
+        "engine": "simexec", "design_ref": "DESIGN.md section 3 C04",
+        "technique": "property-based testing (rapid) with generated stop injection; decision-table oracle for outcome label and handler selection/order over the trace",
+        "level_text": "Generated search over DAG x handler subsets x handler outcomes x stop instants; label and handler trace judged against the property's table, with the spec's ambiguous window accepted both ways.",
+        "level_note": SIM_NOTE,
+    },
+    "C15": {
+        "engine": "simexec", "design_ref": "DESIGN.md section 3 C15",
+        "technique": "property-based testing (rapid): high-water-mark invariant over the trace, harness-held attempts for the k=0 clause, bounded liveness with confirmed re-run",
+        "level_text": "Generated search over width x k x retry scripts x completion schedules; upper bound checked at every trace position, 'no limit' and 'never prevents completion' as bounded waits.",
+        "level_note": SIM_NOTE,
+    },
 }
 
 NOT_APPLICABLE = {}
